@@ -43,9 +43,18 @@ def classify(results, pid):
     groups = {}
     for r in results:
         o = r.obl
+        if o.kind == 'V' and o.meta.get('strict'):
+            if r.verdict == 'unsat':
+                R['vacuous'].append(o.name)
+            else:
+                R['guards_ok'] += 1
+            continue
         if o.kind == 'V':
             g = o.meta.get('group', o.name)
             groups.setdefault(g, []).append(r)
+            continue
+        if o.kind == 'K':
+            R.setdefault('known_obls', []).append(r)
             continue
         if r.verdict == 'unsat':
             R['discharged'].append(r)
